@@ -270,9 +270,20 @@ def trace_family_check(pid, tier, tmp, replay, *, variant, driver, driver_args, 
     build(variant, [driver])
     violations, mc_res, wit_res, errs = [], {}, {}, []
 
+    mc_cfgs = [mc_cfg] if isinstance(mc_cfg, str) else list(mc_cfg)
+    mc_cfg = ', '.join(mc_cfgs)
+
     def stage_s():
+        # one TLC run per configuration, one after the other; the numbers are summed, the first failure is kept
         try:
-            mc_res.update(tlc_mc(mc_module, mc_cfg, tmp, workers=mc_workers, timeout=1500 if tier == 'thorough' else 500))
+            tot = {'ok': True, 'states': 0, 'distinct': 0, 'completed': True, 'violated': [], 'out': ''}
+            for c in mc_cfgs:
+                r = tlc_mc(mc_module, c, tmp, workers=mc_workers, timeout=2400 if tier == 'thorough' else 500)
+                tot['states'] += r['states']; tot['distinct'] += r['distinct']
+                tot['completed'] = tot['completed'] and r['completed']
+                if not r['ok'] and tot['ok']:
+                    tot.update(ok=False, violated=['%s in %s' % (v, c) for v in r['violated']], out=r['out'])
+            mc_res.update(tot)
         except Exception as e:  # noqa
             errs.append(e)
 
@@ -342,7 +353,7 @@ def trace_family_check(pid, tier, tmp, replay, *, variant, driver, driver_args, 
     cov = {'states': mc_res['distinct'] + wit_res.get('states', 0) + val['states'], 'transitions': mc_res['states'],
            'traces_validated_against_impl': val['accepted'],
            'samples': [{'events_of_one_execution': [json.loads(x) for x in keep]}],
-           'mc_configs': [mc_cfg] + ([wit[0]] if wit else []) + [trace_cfg], 'mc_distinct_states': mc_res['distinct'],
+           'mc_configs': mc_cfgs + ([wit[0]] if wit else []) + [trace_cfg], 'mc_distinct_states': mc_res['distinct'],
            'mc_exhaustive_within_constants': bool(mc_res.get('completed')),
            'witnesses_reached': sorted(wit_res.get('seen', [])),
            'trace_executions': val['executions'], 'trace_events': val['lines'], 'trace_rejections': len(val['rejections']),
